@@ -44,6 +44,7 @@ type Case struct {
 	TSAction  string     `json:"tsAction"`
 	EdgeLabel string     `json:"edge"`
 	Warm      string     `json:"warm,omitempty"` // earlier verification on the same verifier: "", plain, token, expired
+	StoreOrd  int        `json:"storeOrder"`     // position / repetition of the tsa store in the statement's store list
 }
 
 var (
@@ -189,7 +190,17 @@ func check(c Case) (string, string, verdicts) {
 	stores := []string{storeType + ":x"}
 	ts := mocks.NewTrustStore().Put(storeType, "x", ch.Root().Cert)
 	if c.TSAStore {
-		stores = append(stores, "tsa:t")
+		switch c.StoreOrd % 4 {
+		case 0:
+			stores = append(stores, "tsa:t")
+		case 1: // tsa store listed first
+			stores = append([]string{"tsa:t"}, stores...)
+		case 2: // between two stores of the signing type
+			stores = []string{storeType + ":x", "tsa:t", storeType + ":second"}
+			ts.Put(storeType, "second", otherTSARoot.Cert)
+		case 3: // listed twice
+			stores = []string{"tsa:t", storeType + ":x", "tsa:t"}
+		}
 		ts.Put("tsa", "t", tsaRoot.Cert)
 	}
 	ts.Put("ca", "decoy", tsaRoot.Cert, otherTSARoot.Cert) // TSA roots in a ca store must never help
@@ -293,7 +304,7 @@ func classes(c Case, v verdicts) []string {
 	}
 	if c.Scheme == "x509" {
 		if c.TSAStore {
-			cl = append(cl, "tsa-store-listed", "option="+c.Option)
+			cl = append(cl, "tsa-store-listed", "option="+c.Option, fmt.Sprintf("store-order=%d", c.StoreOrd%4))
 		}
 		if v.applies {
 			cl = append(cl, "tsa=applies", "token="+c.Token, "tsarev="+c.TSARev)
@@ -399,6 +410,7 @@ func drawCase(rt *rapid.T) Case {
 		c.GenTime, c.Accuracy = 0, 0
 	}
 	c.Warm = rp.Pick(rt, "warm", "", "", "", "plain", "token", "expired")
+	c.StoreOrd = rapid.IntRange(0, 3).Draw(rt, "storeOrder")
 	return c
 }
 
